@@ -27,7 +27,7 @@ func runC13(c *Ctx) {
 	r := c.R
 	r.Rule("R13-window", "AlphaBeta.Search and Quiescence.QuietSearch take (Alpha,Beta) from the context, substituting -inf/+inf exactly for invalid bounds; at depth 0 the current (alpha,beta) is forwarded to the leaf search", 3)
 	r.Rule("R13-failhard", "after the move loop every returned value is alpha or a child value established above it (never below alpha); quiescence never returns below the static evaluation on a has-legal-move path", 2)
-	r.Rule("R13-exact", "mate/stalemate values are returned exactly on the no-legal-move path and a cut-off is only taken after a legal move was found", 2)
+	r.Rule("R13-exact", "mate/stalemate values are returned exactly on the no-legal-move path and a cut-off is only taken after a legal move was found; the negamax recursion is exact inside the window (children one ply shallower under the negated window, the move loop left early only on alpha >= beta)", 5)
 
 	m := newSearchModel(c, "R13-window")
 	if m == nil {
@@ -40,6 +40,13 @@ func runC13(c *Ctx) {
 	}
 	c.guard("R13-window", func() { c13Window(c, m) })
 	c.guard("R13-failhard", func() { c13FailHard(c, m, rec) })
+	// inside the window the result is exact only if the negamax discipline holds, in particular the
+	// move loop is left early only on alpha >= beta (rules of C03, re-decided here)
+	c.guard("R13-exact", func() {
+		r.WithAlias("R03-terminal", "-", func() {
+			r.WithAlias("R03-negamax", "R13-exact", func() { c03Paths(c, m) })
+		})
+	})
 }
 
 func c13Window(c *Ctx, m *searchModel) {
